@@ -189,12 +189,20 @@ class NotifyMonitor:
         elif action == "unwatch_self":
             obs.acc.unwatch(obs.on_change)
             off(obs.idx)
-        elif action == "unwatch_next":
+        elif action in ("unwatch_next", "swap_next"):
             nxt = alln[(obs.idx + 1) % len(alln)]
             is_on = info["active"] if nxt.idx == 0 else info["extra_active"][nxt.idx - 1]
             if is_on and nxt is not obs:
                 obs.acc.unwatch(nxt.on_change)
                 off(nxt.idx)
+                if action == "swap_next":
+                    # ... and registers a brand-new observer in the same breath: the list has the length it had before
+                    new = _Observer(self, obs.acc, len(alln))
+                    info["extra"].append(new)
+                    info["extra_active"].append(True)
+                    info["order"].append(new.idx)
+                    info.setdefault("fresh", set()).add(new.idx)
+                    obs.acc.watch(new.on_change)
         self.reentrant_log.append((obs.idx, action))
 
     def unwatch(self, acc) -> None:
@@ -321,7 +329,7 @@ class NotifyMonitor:
                             reg.clear()
                         elif act == "unwatch_self":
                             reg.discard(idx)
-                        elif act == "unwatch_next":
+                        elif act in ("unwatch_next", "swap_next"):
                             nxt = (idx + 1) % nobs
                             if nxt != idx:
                                 reg.discard(nxt)
